@@ -136,7 +136,9 @@ SLOTS = {'P': 'proj', 'ES': 'es', 'E': 'en', 'I': 'item', 'S': 'sc', 'T': 'tab',
 AWKWARD = ['"a.b"', '"a.b.c"', '"{"', '"}"', '"{x}"', '" "', '""', '"."', '".."', '"a b"', '"it\'s"', '"%s"', '"{0}"', '"(a)"', '"a,b"', '"`"', '"\\\\"',
            '"[x]"', '"#"', '"//"', '"/*"', '"null"', '"é"', '"🙂"', 't', 'u', 'id', 'public', 'int',
            # backslash sequences inside a quoted name (a lexer may turn them into control characters), names made of brackets and carets
-           '"a\\nb"', '"a\\tb"', '"\\n"', '"x\\"', '"a[0]"', '"a^b"', '"`a`"']
+           '"a\\nb"', '"a\\tb"', '"\\n"', '"x\\"', '"a[0]"', '"a^b"', '"`a`"',
+           # a parenthesis at one end only (the composite form of a reference is written with parentheses)
+           '"(usd"', '"("', '")"', '"a)"', '"(a, b"']
 RAW_ALPHA = ['a', ' ', '\n', "'", '"', '\\', '`', '{', '}', '%', '\t']
 TEXT_SITES = ["Table t {\n  id int [note: @L@]\n}\n", "Table t {\n  id int\n  Note: @L@\n}\n", "Table t {\n  id int [default: @L@]\n}\n",
               "Note n {\n  @L@\n}\n", "Project p {\n  k: @L@\n  Note: @L@\n}\n", "Table t {\n  id int\n  indexes {\n    id [name: @L@, note: @L@]\n  }\n}\n",
